@@ -24,9 +24,9 @@ CLAIMED.update({
    note=TB_B + '; rounding of points exactly on a cell border is not decided (exact arithmetic); C model tables of <= 32 cells in back end A', ref='DESIGN.md 4 (C13)'),
 })
 CLAIMED.update({
- 'C10': dict(cat='proof', technique='SMT verification conditions over the reals generated from the extracted code, libm as uninterpreted functions with ground axiom instances (z3/cvc5 portfolio)',
-   text='Normalisers (range and congruence mod 2*pi for |val| < 4*pi), planar angle<->matrix pair (both directions), rotation3DToEulerAngles applied to Rz*Ry*Rx returns the angles mod 2*pi (|pitch| < pi/2), SmartRotation3D::R equals Rz*Ry*Rx entry by entry, is orthonormal with determinant 1, polar and spherical <-> Cartesian round trips: each an unbounded statement over all real inputs, one discharged query per clause.',
-   note=TB_B + '; NOT covered: the Eigen quaternion/AngleAxis route, general R->angles->R, float narrowing (see specs/C10/meta.json)', ref='DESIGN.md 4 (C10)'),
+ 'C10': dict(cat='proof', technique='SMT / exact-polynomial verification conditions over the reals generated from the extracted code, libm as uninterpreted functions with ground axiom instances (z3/cvc5/polyid portfolio); Eigen/Geometry (AngleAxis, quaternion product, toRotationMatrix, normalized) by assumed contracts',
+   text='Normalisers (range and congruence mod 2*pi for |val| < 4*pi), planar angle<->matrix pair (both directions), rotation3DToEulerAngles applied to Rz*Ry*Rx returns the angles mod 2*pi (|pitch| < pi/2), SmartRotation3D::R equals Rz*Ry*Rx entry by entry, is orthonormal with determinant 1; eulerAnglesToQuaternion gives a unit quaternion and eulerAnglesToRotation3D equals Rz*Ry*Rx (the builders agree), quaternionToEulerAngles is invariant under scaling of the quaternion (unit or non-unit); polar and spherical <-> Cartesian round trips: each an unbounded statement over all real inputs, one discharged query per clause.',
+   note=TB_B + '; Eigen/Geometry operations enter by assumed contracts (specs/C10/meta.json); NOT covered: general R->angles->R, rigid_transformation3, float narrowing', ref='DESIGN.md 4 (C10), 9'),
  'C12': dict(cat='proof', technique='SMT / exact-polynomial verification conditions: extracted derivative matrices and the extracted 6x6 pose Jacobian against formal derivatives (symalg) of the code\'s own rotation and pose map',
    text='All 27 entries of dR/droll, dR/dpitch, dR/dyaw against the formal derivative of the reported R (= Rz*Ry*Rx, proved): 17 discharged, 10 refuted = known findings pinned by the existing tests; dRTdAngles(T) = (dR/da)*T. operator*(Affine3d, Pose3D): covariance\' = J cov J^T for the code\'s J (proved), and all 36 entries of J against the Jacobian of the library\'s own pose map: 19 discharged (zero blocks, d roll/d roll, one sign), 17 entries (19 obligations) refuted = known findings with native failing inputs.',
    note=TB_B + '; tools/polyid.py (sympy) as fourth portfolio member; NOT covered: LeastSquares::computeEstimateCovariance (dynamic-size Eigen, see specs/C12/meta.json)', ref='DESIGN.md 4 (C12), 9'),
